@@ -27,8 +27,17 @@ def generate(rng, tier):
     n, maxlen = (600, 4096) if tier == "quick" else (8000, 65536)
     lens = [0, 1, 63, 64, 65, 127, 128, 129] + [rng.randint(0, 200) for _ in range(n // 2)] + [rng.randint(0, maxlen) for _ in range(n // 4)]
     if tier == "thorough": lens += [1 << 20, (1 << 20) + 1]
+    def special(n):
+        r = rng.random()
+        if r < 0.7: return rbytes(rng, n)
+        k = rng.randint(1, n)
+        c = rng.randrange(4)
+        if c == 0: return rbytes(rng, n - k) + bytes(k)          # trailing zero bytes
+        if c == 1: return bytes(k) + rbytes(rng, n - k)          # leading zero bytes
+        if c == 2: return bytes(n)
+        return bytes([0xff]) * n
     for L in lens:
-        data, salt, pk = rbytes(rng, L), rbytes(rng, 16), rbytes(rng, 32)
+        data, salt, pk = rbytes(rng, L), special(16), special(32)
         want = pyref.integrity(data, salt, pk).hex() + " ~0"
         cs.append(Case("integ.gen %s %s %s" % (hx(data), salt.hex(), pk.hex()), "generic", want, dict(n=L)))
         for cuts in (None, [0, 0, 0, 0], [L, L, L, L], [0, 1, min(63, L), min(64, L)], [min(64, L), min(65, L), L, L]):
@@ -44,8 +53,8 @@ def generate(rng, tier):
         cs.append(Case("integ.mac %s %s %s" % (" ".join(hx(x) for x in split5(rng, data)), bytes(s2).hex(), pk.hex()), "salt-bit-flip", pyref.integrity(data, bytes(s2), pk).hex() + " ~0", dict(n=L)))
         i = rng.randrange(256); p2 = bytearray(pk); p2[i // 8] ^= 1 << (i % 8)
         cs.append(Case("integ.gen %s %s %s" % (hx(data), salt.hex(), bytes(p2).hex()), "key-bit-flip", pyref.integrity(data, salt, bytes(p2)).hex() + " ~0", dict(n=L)))
-    for _ in range(50):
-        salt = rbytes(rng, 16)
+    for _ in range(200):
+        salt = special(16)
         cs.append(Case("integ.recon " + salt.hex(), "reconnect", pyref.integrity_reconnect(salt).hex() + " ~0"))
     return cs
 
